@@ -181,8 +181,8 @@ SPEC = {
              'without final newline): parsed gate map, input order, output order and truth table equal the netlist the '
              'text was printed from. Non-trivial: keyword-prefixed label, use before definition or an alias present.'),
     'assumptions': ['only layout constructs the parser documents or its tests use are generated (no tabs, no leading blanks, no trailing comments)'],
-    'subs': [Sub('roundtrip', rt_cases, check_roundtrip, {'quick': 2500, 'thorough': 40000}),
-             Sub('layout', layout_cases, check_layout, {'quick': 2500, 'thorough': 40000})],
+    'subs': [Sub('roundtrip', rt_cases, check_roundtrip, {'quick': 2500, 'thorough': 200000}),
+             Sub('layout', layout_cases, check_layout, {'quick': 2500, 'thorough': 200000})],
     'required_classes': {'roundtrip': ['kw_input_on_gate', 'kw_output_on_gate', 'kw_input_on_input', 'kw_on_output',
                                        'route:rename', 'via_file', 'nary>=3', 'constant'],
                          'layout': ['use_before_definition', 'alias_buff', 'alias_vdd', 'comment', 'kw_input_on_gate']},
